@@ -80,6 +80,9 @@ func runC07(p *Prog, r *Report) {
 	if want("C07.7") {
 		ruleFileNumRecycling(p, r, "C07.7")
 	}
+	if want("C07.8") {
+		ruleDeltaRecordIsPure(p, r, "C07.8")
+	}
 }
 
 // ruleFileNumRecycling: session.reuseFileNum hands a file number back to the allocator; the next
@@ -701,7 +704,7 @@ func ruleStartupSweep(p *Prog, r *Report, rule string) {
 // be both: passing the edit itself to newManifest and then to setVersion references every live
 // table once more, and tables that were already live are then never removed (until a reopen).
 func ruleDeltaRecordIsPure(p *Prog, r *Report, rule string) {
-	r.Begin(rule, "E-FLOW", "the delta given to the reference loop is the edit alone: in session.commit the record passed to setVersion is never passed to newManifest (which appends all tables of the version to its record); newManifest completes only records of its own or fresh records; version.fillRecord is called from newManifest only", 3)
+	r.Begin(rule, "E-FLOW", "the delta given to the reference loop is the edit alone: in session.commit the record passed to setVersion is never passed to newManifest (which appends all tables of the version to its record); version.fillRecord is called only by newManifest (snapshot) and by recover, where it fills the first delta exactly once for the installed version", 5)
 	defer r.End()
 	fn := resolveFn(p, r, "leveldb", "(*session).commit")
 	if fn == nil {
@@ -735,10 +738,37 @@ func ruleDeltaRecordIsPure(p *Prog, r *Report, rule string) {
 		}
 		ok := len(callers) >= 1
 		for _, c := range callers {
-			if c != "(*leveldb.session).newManifest" {
+			if c != "(*leveldb.session).newManifest" && c != "(*leveldb.session).recover" {
 				ok = false
 			}
 		}
-		r.Check(ok, fnName(fr), "only-newManifest-snapshots", "version.fillRecord (all tables into a record) is used by newManifest only", fmt.Sprint(callers), p.Pos(fr.Pos()))
+		r.Check(ok, fnName(fr), "only-snapshots-fill", "version.fillRecord (all tables into a record) is used by newManifest (manifest snapshot) and recover (first delta) only", fmt.Sprint(callers), p.Pos(fr.Pos()))
 	}
+	// recover: the reference loop starts empty, so the delta installed with the recovered version
+	// lists every recovered table exactly once: v.fillRecord(rec) precedes setVersion(rec, v) on
+	// every path, for the same v and rec, and is not repeated.
+	rc := resolveFn(p, r, "leveldb", "(*session).recover")
+	if rc == nil {
+		return
+	}
+	const fFill = "(*leveldb.version).fillRecord"
+	svs := findCalls(rc, fSetVer)
+	r.Site(1)
+	r.Check(len(svs) == 1, fnName(rc), "installs-once", "recover installs the recovered version with one setVersion", fmt.Sprintf("%d setVersion calls", len(svs)), p.Pos(rc.Pos()))
+	if len(svs) != 1 {
+		return
+	}
+	sv := callCommon(svs[0])
+	rec, ver := stripConv(sv.Args[1]), stripConv(sv.Args[2])
+	fills := func(in ssa.Instruction) bool {
+		if !isCallTo(in, fFill) {
+			return false
+		}
+		c := callCommon(in)
+		return stripConv(c.Args[0]) == ver && stripConv(c.Args[1]) == rec
+	}
+	ordPrecede(p, r, rc, "recovered-tables-referenced", nil, fills, "v.fillRecord(rec) for the installed version and record", evCall(fSetVer), "setVersion(rec, v)")
+	r.Site(1)
+	n := countInstr(rc, func(in ssa.Instruction) bool { return isCallTo(in, fFill) })
+	r.Check(n == 1, fnName(rc), "recovered-tables-referenced-once", "the recovered tables are listed once in the first delta", fmt.Sprintf("%d fillRecord calls", n), p.Pos(rc.Pos()))
 }
